@@ -216,7 +216,7 @@ fn check_family(rep: &mut Report, k: usize, rc: bool, fam: &Fam, dir: &str) -> V
             let wf = if spec.thr == 0 { "0" } else { "1" };
             let mut a = vec!["weed", "x.skf", "-o", "wf.skf", "--min-freq", wf];
             a.extend(flags.iter());
-            let _ = std::fs::remove_file(format!("{dir}/wf.skf"));
+            scratch::stale(&format!("{dir}/wf.skf"));
             let o = cli::run(&a, dir, None);
             step(rep, &format!("weed {}", flags.join(" ")), (|| {
                 if o.code != 0 {
@@ -351,7 +351,7 @@ fn check_family(rep: &mut Report, k: usize, rc: bool, fam: &Fam, dir: &str) -> V
         let plain = cli::run(&base, dir, None);
         let mut a = base.clone();
         a.extend(["-o", "report.out"]);
-        let _ = std::fs::remove_file(format!("{dir}/report.out"));
+        scratch::stale(&format!("{dir}/report.out"));
         let o = cli::run(&a, dir, None);
         step(rep, &format!("{what} -o"), (|| {
             if plain.code != 0 {
@@ -390,7 +390,7 @@ fn check_family(rep: &mut Report, k: usize, rc: bool, fam: &Fam, dir: &str) -> V
         if reverse {
             a.push("--reverse");
         }
-        let _ = std::fs::remove_file(format!("{dir}/w.skf"));
+        scratch::stale(&format!("{dir}/w.skf"));
         let o = cli::run(&a, dir, None);
         step(rep, if reverse { "weed --reverse" } else { "weed" }, (|| {
             if o.code != 0 {
@@ -405,7 +405,7 @@ fn check_family(rep: &mut Report, k: usize, rc: bool, fam: &Fam, dir: &str) -> V
     }
     // delete
     if names.len() >= 2 {
-        let _ = std::fs::remove_file(format!("{dir}/d.skf"));
+        scratch::stale(&format!("{dir}/d.skf"));
         let o = cli::run(&["delete", "-s", "x.skf", "-o", "d", &names[0]], dir, None);
         step(rep, "delete", (|| {
             if o.code != 0 {
@@ -449,7 +449,7 @@ fn check_family(rep: &mut Report, k: usize, rc: bool, fam: &Fam, dir: &str) -> V
     }
     // merge in both orders, then nk on the merged file
     for (first, second, want) in [("x.skf", "y.skf", t.merge(&to)), ("y.skf", "x.skf", to.merge(&t))] {
-        let _ = std::fs::remove_file(format!("{dir}/m.skf"));
+        scratch::stale(&format!("{dir}/m.skf"));
         let o = cli::run(&["merge", first, second, "-o", "m"], dir, None);
         step(rep, &format!("merge {first} {second}"), (|| {
             if o.code != 0 {
@@ -469,7 +469,7 @@ fn check_family(rep: &mut Report, k: usize, rc: bool, fam: &Fam, dir: &str) -> V
     }
     // writing subcommands reading the file under the suffix-less name `cleaned` (copied above)
     {
-        let _ = std::fs::remove_file(format!("{dir}/ma.skf"));
+        scratch::stale(&format!("{dir}/ma.skf"));
         let o = cli::run(&["merge", "cleaned", "y.skf", "-o", "ma"], dir, None);
         step(rep, "merge cleaned y.skf", (|| {
             if o.code != 0 {
@@ -481,7 +481,7 @@ fn check_family(rep: &mut Report, k: usize, rc: bool, fam: &Fam, dir: &str) -> V
             Ok(())
         })());
         if names.len() >= 2 {
-            let _ = std::fs::remove_file(format!("{dir}/da.skf"));
+            scratch::stale(&format!("{dir}/da.skf"));
             let o = cli::run(&["delete", "-s", "cleaned", "-o", "da", &names[0]], dir, None);
             step(rep, "delete -s cleaned", (|| {
                 if o.code != 0 {
@@ -513,7 +513,7 @@ fn check_family(rep: &mut Report, k: usize, rc: bool, fam: &Fam, dir: &str) -> V
         }
         for (fname, tab) in cands {
             for (first, second, want) in [("x.skf", fname, t.merge(&tab)), (fname, "x.skf", tab.merge(&t))] {
-                let _ = std::fs::remove_file(format!("{dir}/m2.skf"));
+                scratch::stale(&format!("{dir}/m2.skf"));
                 let o = cli::run(&["merge", first, second, "-o", "m2"], dir, None);
                 step(rep, &format!("merge {first} {second}"), (|| {
                     if o.code != 0 {
